@@ -147,13 +147,34 @@ def well_formed(cmds):
 
 
 # ---------------------------------------------------------- running the code
+MAX_CRASHES = 5          # crashed / hung executions collected per batch before judging
+SKIPPED = [0]            # executions not run because a batch was cut short (never on a green tree)
+
+
+class Skipped(list):
+    """history of a script that was NOT executed (its batch was cut short after
+    MAX_CRASHES crashed executions): callers drop it - it is neither compared
+    with a prediction, nor judged, nor counted"""
+
+
 def run_scripts(ctx, binp, level, conf, scripts, timeout=300):
     """Execute scripts (lists of commands) on the real code, one process,
     'reset' between scripts.  Returns one event list per script (the first
-    event is the Reset line).  A crash / hang is an event r = "crash"."""
+    event is the Reset line).  A crash / hang is an event r = "crash".
+    The harness runs every command under an alarm (exit status 5, no result
+    line), so a command that never returns costs seconds; after MAX_CRASHES
+    crashed executions the rest of the batch is not run (each gets a bare Reset
+    history and is counted in SKIPPED): a few are enough to judge and report,
+    and a broken tree must yield a verdict, not a crawl."""
     out = [None] * len(scripts)
     start = 0
+    crashes = 0
     while start < len(scripts):
+        if crashes >= MAX_CRASHES:
+            for i in range(start, len(scripts)):
+                out[i] = Skipped([reset_event(level, conf)])
+            SKIPPED[0] += len(scripts) - start
+            break
         lines = []
         owner = []
         for i in range(start, len(scripts)):
@@ -187,10 +208,13 @@ def run_scripts(ctx, binp, level, conf, scripts, timeout=300):
             raise vlib.ToolError("replay_udict failed after the last command rc=%d: %s"
                                  % (r.returncode, (r.stderr or "")[-1500:]))
         i, j = owner[nres]
-        why = "time-out" if r.returncode == 124 else "rc=%d %s" % (r.returncode, summarise_stderr(r.stderr))
+        why = ("time-out" if r.returncode == 124 else
+               "hang (command did not return within the harness alarm)" if r.returncode == 5 else
+               "rc=%d %s" % (r.returncode, summarise_stderr(r.stderr)))
         if j < 0:
             raise vlib.ToolError("replay_udict crashed in reset: " + why)
         out[i].append(crashed(scripts[i][j], why))
+        crashes += 1
         start = i + 1
     return out
 
@@ -384,6 +408,8 @@ def replay_behaviours(ctx, binp, behs, combos, tag):
     for (level, conf), idxs in sorted(plan.items()):
         hists = run_scripts(ctx, binp, level, conf, [behs[i][0] for i in idxs])
         for i, h in zip(idxs, hists):
+            if isinstance(h, Skipped):
+                continue
             cmds, pred = behs[i]
             ctx.evaluations += 1
             bad = None
@@ -545,7 +571,8 @@ def random_traces(ctx, binp, nexec, length, tag):
     for (level, conf), scripts in sorted(plan.items()):
         hists = run_scripts(ctx, binp, level, conf, scripts, timeout=900)
         for c, h in zip(scripts, hists):
-            pool.append((h, level, conf, c))
+            if not isinstance(h, Skipped):
+                pool.append((h, level, conf, c))
     ctx.evaluations += len(pool)
     nev = sum(len(p[0]) for p in pool)
     rej = judge(ctx, [p[0] for p in pool], tag)
@@ -600,7 +627,15 @@ def with_depth(ctx, cfg, depth):
 
 
 def run(ctx):
-    _run(ctx)
+    SKIPPED[0] = 0
+    try:
+        _run(ctx)
+    finally:
+        # executions cut from a batch after MAX_CRASHES crashed ones were not run on
+        # the real code; they are dropped before comparison / judging (class
+        # Skipped) and therefore not counted anywhere - only reported here
+        if SKIPPED[0]:
+            ctx.extra["executions_skipped_after_crashes"] = SKIPPED[0]
 
 
 def _run(ctx):
